@@ -10,6 +10,7 @@ Structural clauses decided (per class of the object system, on every path):
   O7  nothing is used after it was released (must-released at the use)
   O8  object-property setters release the previous object before overwriting it
   O9  init() assigns every field that done() releases (done after new never frees garbage)
+  O10 a duplicate made by a whole-struct copy re-establishes every pointer field (no pointer shared with the original)
 """
 import re
 
@@ -342,7 +343,7 @@ def run(tier="quick"):
     for rid, txt in (("O1", "done leaves every released field NULL"), ("O2", "done releases every field a method allocates into"),
                      ("O3", "del = done then dealloc"), ("O5", "remove clears the node's data before deleting the node"),
                      ("O6", "no local allocation leaks on any path"), ("O7", "no use after release"),
-                     ("O8", "object setters delete the previous object"), ("O9", "init assigns every field done releases")):
+                     ("O8", "object setters delete the previous object"), ("O9", "init assigns every field done releases"), ("O10", "a struct-copied duplicate shares no pointer field with its original")):
         chk.rule(rid, txt)
     prog = facts.extract()
     dones = [f for f in classinfo.functions_in_slot(prog, "done") if f.unit.name in FILES]
@@ -377,6 +378,27 @@ def run(tier="quick"):
                    detail="%s stores a fresh allocation into ->%s (%s) but %s never releases that field: leaked when the object is "
                           "emptied or deleted" % (fn.name, fld, fn.loc(n), d.name),
                    proof="%s hands self->%s to a releasing call" % (d.name, fld))
+    # O10 a copy made by a whole-struct memcpy shares no pointer with its original: every pointer field of the copy (owned by
+    # done or not - a list's tail is not released by done, but a tail that aliases the original's last node makes the
+    # original free what the copy appended) is re-established on every path.  This is C05's D2 dataflow, claimed here for
+    # its ownership consequence.
+    from . import C05 as _C05
+    summ5 = nullness.Summaries(prog, noreturn=NORETURN)
+    nullable5 = classinfo.nullable_fields(prog)
+    n10 = 0
+    for f in classinfo.functions_in_slot(prog, "dup"):
+        if f.unit.name not in FILES or not any(X.callee_name(c) in ("memcpy", "memmove", "__builtin_memcpy") for c in X.calls_in(f.body)):
+            continue
+        before = len(chk.obls)
+        _C05.check_dup(chk, prog, summ5, f, nullable5)
+        kept = []
+        for o in chk.obls[before:]:
+            if o.rule == "D2":
+                o.rule = "O10"
+                kept.append(o)
+        chk.obls[before:] = kept
+        n10 += len(kept)
+    chk.count("shallow_copy_fields", n10, floor=6)
     # O3
     dels = [f for f in classinfo.functions_in_slot(prog, "del") if f.unit.name in FILES]
     for f in dels:
